@@ -11,8 +11,8 @@ m = json.load(open(f"{cand}/meta.json"))
 m["confirmed"] = {"how": "tools/seedeval.sh in a scratch git worktree of /repo HEAD: patch applies, go build ./... ok, full ./x/... ./contrib/... suite passes with the change, demo test fails with the change and passes without it",
                   "detection_run": "patch applied to /repo, ./check <prop> quick, /repo reverted"}
 m["detected_by"] = det
-head = subprocess.check_output(["git", "-C", "/repo", "rev-parse", "--short", "HEAD"]).decode().strip()
-if subprocess.run(["git", "-C", "/repo", "apply", "--check", f"{cand}/patch.diff"], capture_output=True).returncode == 0:
+head = subprocess.check_output(["git", "-C", os.environ.get("REPO_CHECK", "/repo"), "rev-parse", "--short", "HEAD"]).decode().strip()
+if subprocess.run(["git", "-C", os.environ.get("REPO_CHECK", "/repo"), "apply", "--check", f"{cand}/patch.diff"], capture_output=True).returncode == 0:
     m["applies_to_repo_commits"] = [head]
 m["missed_by"] = missed
 json.dump(m, open(f"{dst}/meta.json", "w"), indent=1)
